@@ -45,6 +45,19 @@ fn main() {
                     eprintln!("selected job: {}", j.spec.to_string().chars().take(700).collect::<String>());
                 }
             }
+            // debugging aid: VX_PLAN_ONLY=1 prints the size of the plan (jobs, histories for history jobs) and stops
+            if std::env::var("VX_PLAN_ONLY").is_ok() {
+                let mut hist: f64 = 0.0;
+                let mut sized = 0;
+                for j in &jobs {
+                    if let (Some(a), Some(d), Some(p)) = (j.spec.get("alphabet").and_then(|a| a.as_array()), j.spec.get("depth").and_then(|d| d.as_u64()), j.spec.get("prefix").and_then(|p| p.as_array())) {
+                        hist += (a.len() as f64).powi(d as i32 - p.len() as i32);
+                        sized += 1;
+                    }
+                }
+                println!("{prop} {tier}: jobs={} history_jobs={sized} histories={hist:.0}", jobs.len());
+                std::process::exit(0);
+            }
             let par = std::env::var("VX_PAR").ok().and_then(|s| s.parse().ok()).unwrap_or(16);
             let start = Instant::now();
             let timeout = if tier == "quick" { 600 } else { 3600 };
